@@ -54,7 +54,7 @@ structure RunSt where
 
 def fmtAns (k : Kind) (a : Option Bool) : String :=
   match k, a with
-  | .req, some true => "admit"
+  | .req, some true => "pass"
   | .req, some false => "refuse"
   | .allowed, some true => "true"
   | .allowed, some false => "false"
@@ -126,7 +126,7 @@ def judgeStep (s : JudgeSt) (op out : String) : JudgeSt :=
       | some q, some t, some r, some h =>
         let o : Op := ⟨kind, q, r, t, h⟩
         if out == "ok" && (kind == .inc || kind == .dec) then { s with hist := ⟨o, none⟩ :: s.hist }
-        else if (out == "admit" && kind == .req) || (out == "true" && kind == .allowed) then
+        else if (out == "pass" && kind == .req) || (out == "true" && kind == .allowed) then
           { s with hist := ⟨o, some true⟩ :: s.hist }
         else if (out == "refuse" && kind == .req) || (out == "false" && kind == .allowed) then
           { s with hist := ⟨o, some false⟩ :: s.hist }
